@@ -11,6 +11,15 @@ PROP = 'C01'
 ORACLE = 'c01'
 
 
+def RO_PLAN(depth):
+    # one of the two sessions has selected the mailbox read-only: what it
+    # asks for is refused, what the other does it must still be told
+    return dict(nsess=2, depth=depth, idle=False, ro_actor=True,
+                cmds=['STORE1+Del', 'STORE2+Del.SILENT', 'EXPUNGE', 'NOOP',
+                      'FETCHall', 'UIDSTORE102+Flagged', 'MOVE1-Other',
+                      'SEARCHall', 'STORE3Flagged'])
+
+
 def plans(tier, opts):
     if 'depth' in opts:
         return [dict(nsess=int(opts.get('nsess', 2)),
@@ -23,7 +32,8 @@ def plans(tier, opts):
                            'UIDSTORE102+Flagged', 'STORE3Flagged']),
                 dict(nsess=2, depth=4, idle=False,
                      cmds=['STORE1+Del', 'EXPUNGE', 'APPEND', 'MOVE1-Other',
-                           'FETCHall', 'UIDFETCH1:*', 'NOOP', 'UIDSTORE102+Flagged'])]
+                           'FETCHall', 'UIDFETCH1:*', 'NOOP', 'UIDSTORE102+Flagged']),
+                RO_PLAN(3)]
     return [dict(nsess=2, depth=4),
             dict(nsess=2, depth=4, predeleted=True, idle=False,
                  cmds=['EXPUNGE', 'UIDEXPUNGE101', 'STORE1+Del', 'NOOP',
@@ -36,7 +46,8 @@ def plans(tier, opts):
                        'FETCHall', 'UIDFETCH1:*', 'NOOP', 'UIDSTORE102+Flagged',
                        'STORE2+Del.SILENT', 'SEARCHall']),
             dict(nsess=3, depth=3, idle=False),
-            dict(nsess=2, depth=3, observer=True)]
+            dict(nsess=2, depth=3, observer=True),
+            RO_PLAN(4)]
 
 
 def run(*, tier, seed, jobs, progress, opts, prop=PROP, oracle=ORACLE,
@@ -55,6 +66,7 @@ def run(*, tier, seed, jobs, progress, opts, prop=PROP, oracle=ORACLE,
         c = res.coverage(m)
         cov['plans'].append({'sessions': m.nsess, 'observer': m.observer,
                              'start_with_two_deleted': m.predeleted,
+                             'session0_read_only': m.ro_actor,
                              'depth': depth,
                              'alphabet': sorted({e['name'] for e in m.alphabet()}),
                              **{k: c[k] for k in (
